@@ -177,3 +177,37 @@ func S2b(tier string, ext uint32, fees bool) *Scenario {
 	}
 	return scenFrom(fmt.Sprintf("S2b-batch-book-ext%d-%s", ext, fn), cfg, pre, bud, al, nil)
 }
+
+// S3: several concurrent auctions of both types sharing auctioneer, bidders and (crossed)
+// denominations: a0 fixed-price sells acoin for bcoin (vesting), a1 batch sells bcoin for acoin; a third
+// one (fixed, by auc2, starts later so that it can be cancelled) may be created by an op.
+func S3(tier string, fees bool) *Scenario {
+	p, fn := feeParams(fees)
+	cfg := world.Config{Balances: stdBalances(), Params: p}
+	pre := []Op{
+		{Kind: "create_fixed", Signer: "auc1", StartPrice: "2", Sell: "10acoin", PayDenom: "bcoin", StartK: 0, EndK: 2, Sched: sched(5, 6)},
+		{Kind: "create_batch", Signer: "auc1", StartPrice: "1", MinPrice: "0.5", Sell: "10bcoin", PayDenom: "acoin", StartK: 0, EndK: 2, MaxExt: 1, Rate: "0.5"},
+		{Kind: "add_allowed", AID: 0, Bidder: "bid1", Max: "10"},
+		{Kind: "add_allowed", AID: 0, Bidder: "bid2", Max: "5"},
+		{Kind: "add_allowed", AID: 1, Bidder: "bid1", Max: "10"},
+		{Kind: "add_allowed", AID: 1, Bidder: "bid2", Max: "4"},
+	}
+	al := &Alphabet{
+		Bidders: []string{"bid1", "bid2"}, AllowBidders: []string{"bid1"},
+		AllowCaps: []string{"10"}, UpdateCaps: []string{"2"},
+		FixedAmts:   []string{"3"},
+		BatchPrices: []string{"1", "2"}, WorthAmts: []string{"6"}, ManyAmts: []string{"3"},
+		ModPrices: []string{"2"}, ModAmts: []string{},
+		Cancellers: []string{"auc2", "auc1"},
+		MaxK:       7, BlockStops: []int{1, 2, 3, 4, 5, 6},
+		Creates: []Op{{Kind: "create_fixed", Signer: "auc2", StartPrice: "1", Sell: "5acoin", PayDenom: "bcoin", StartK: 1, EndK: 3}},
+	}
+	bud := Budget{"create": 1, "allow": 0, "update": 1, "bid": 2, "mod": 1, "cancel": 1, "block": 5}
+	if tier == "thorough" {
+		al.FixedAmts = []string{"3", "7"}
+		al.WorthAmts = []string{"2", "6"}
+		al.BlockStops = nil
+		bud = Budget{"create": 1, "allow": 1, "update": 1, "bid": 4, "mod": 1, "cancel": 1, "block": 6, "tick": 1}
+	}
+	return scenFrom("S3-multi-"+fn, cfg, pre, bud, al, nil)
+}
